@@ -106,12 +106,18 @@ static inline void mpz_mod(mpz_ptr r, mpz_srcptr a, mpz_srcptr m)
   __bits_mono(x, m->v);                                   /* the residue is not longer than the modulus */
   r->v = x;
 }
+#ifdef VERIF_POWM_HOOK
+void verif_powm_hook(long x, mpz_srcptr b, mpz_srcptr e, mpz_srcptr m);
+#endif
 static inline void mpz_powm(mpz_ptr r, mpz_srcptr b, mpz_srcptr e, mpz_srcptr m)
 {
   __CPROVER_assert(m->v != 0, "mpz_powm: modulus is not zero (GMP divides by zero otherwise)");
   long x = UF(powm)(b->v, e->v, m->v);
   __CPROVER_assume(m->v != (-0x7fffffffffffffffL - 1));
   __CPROVER_assume(0 <= x && x < __abs_l(m->v));
+#ifdef VERIF_POWM_HOOK
+  verif_powm_hook(x, b, e, m);   /* ghost monitor defined by the group (loop invariants cannot mention uninterpreted terms) */
+#endif
   r->v = x;
 }
 static inline void mpz_powm_sec(mpz_ptr r, mpz_srcptr b, mpz_srcptr e, mpz_srcptr m)
@@ -159,7 +165,16 @@ static inline void mpz_mul_2exp(mpz_ptr r, mpz_srcptr a, unsigned long n) { r->v
 static inline int mpz_congruent_ui_p(mpz_srcptr a, unsigned long c, unsigned long d) { return UF(congruent_ui)(a->v, c, d) ? 1 : 0; }
 static inline void mpz_swap(mpz_ptr a, mpz_ptr b) { long t = a->v; a->v = b->v; b->v = t; }
 
-#ifdef VEC_DECL
+#if defined(VEC_MPZ_CELLS)
+/* std::vector<mpz_ptr> whose slots own their integers (type invariant of the vectors the classes fill with
+ * `new mpz_t` in their constructors: slot k points to its own object).  The invariant data[k] == &cells[k] is
+ * re-established at every element access instead of being assumed with a quantifier (SAT ignores quantifiers,
+ * cvc5 answers unknown); contracts talk about cells[k]. */
+typedef struct { mpz_ptr *data; size_t size; size_t cap; __mpz_struct *cells; } vec_mpz;
+static inline size_t vec_mpz__size(vec_mpz *v) { return v->size; }
+static inline mpz_ptr *vec_mpz__op_index(vec_mpz *v, size_t i)
+{ __CPROVER_assert(i < v->size, "vector index in range"); v->data[i] = &v->cells[i]; return &v->data[i]; }
+#elif defined(VEC_DECL)
 VEC_DECL(vec_mpz, mpz_ptr)   /* std::vector<mpz_ptr> when stl.h is in use */
 #endif
 /* spec-level names for the same terms (used in contracts) */
